@@ -7,7 +7,7 @@ delivers the abort frame to the initiator)."""
 from . import mir
 
 
-def _eval(f, path, args, answers, log):
+def _eval(f, path, args, answers, log, recorded_ns=True):
     from . import feval as E, coll
     C = coll.Collections(f)
 
@@ -37,7 +37,7 @@ def _eval(f, path, args, answers, log):
             log.append(("run_alice", names))
             return E.Tok("fut:run_alice")
         if mir.callee_matches(t, r"net::codec::BobState::namespace$"):
-            return E.Some(E.Tok("ns-recorded"))
+            return E.Some(E.Tok("ns-recorded")) if recorded_ns else E.NONE
         if mir.callee_matches(t, r"net::codec::BobState::into_outcome$"):
             log.append(("into_outcome", names))
             return E.Tok("bob-outcome")
@@ -68,6 +68,24 @@ def check_accept(ctx, rule):
     path = "net::handle_connection"
     b = f.body(path + "::{closure#0}")
     ctx.touch(b)
+    # a request we declined never held the sync slot of its (document, peer): whatever happens to its connection afterwards, the
+    # error the live actor gets must not look like the failure of an accepted session of that document (it would release the slot
+    # of the session that *is* running with that peer) - it is the Abort itself, or it names no document
+    for closefail in (None, "finish", "stopped", "read_to_end"):
+        log = []
+
+        def answers_d(what, closefail=closefail):
+            if what == "accept_bi":
+                return E.Ok(("tuple", [E.Tok("send"), E.Tok("recv")]))
+            if what == "run":
+                return E.Err(E.variant(f, "net::AcceptError", "Abort", peer=E.Tok("remote-peer"), namespace=E.Tok("ns-declined"), reason=E.Tok("reason")))
+            if what in ("finish", "stopped", "read_to_end"):
+                return E.Err(E.Tok("close-error")) if closefail == what else E.Ok(E.Tok("closed"))
+            return None
+        got = _eval(f, path, [E.Tok("sync"), E.Tok("connection"), E.Tok("accept_cb"), E.NONE], answers_d, log, recorded_ns=False)
+        ok = got.startswith("Err(") and (got.startswith("Err(Abort(") or "ns-declined" not in got)
+        ctx.check(ok, rule, path, "accept[session=declined,close-fails=%s]" % (closefail or "no"),
+                  "returns %s; spec: the Abort error, or an error that names no document (a declined request holds no slot to release)" % got, b.sp)
     for opened in (1, 0):
         for run in ("ok", "err"):
             for closefail in (None, "finish", "stopped", "read_to_end"):
